@@ -3,6 +3,7 @@ package main
 // interp.go: symbolic interpreter for Go SSA.
 
 import (
+	"math/big"
 	"fmt"
 	"go/constant"
 	"go/token"
@@ -72,6 +73,8 @@ type Interp struct {
 	atoms    []Atom // recorded predicate atoms (differential mode)
 	invMemo   map[string]*Term
 	bigVals   map[*Obj]*Term
+	bigConc   map[*Obj]*big.Int // big.Int objects with a concrete (arbitrary precision) value
+	bigOpaque map[*Obj]bool
 	bigField  map[*Obj]*Term // big.Int objects that carry a field value (Element.BigInt / SetBigInt)
 	sched     *Sched // nil: sequential model (a goroutine runs to completion where it is spawned)
 	transcripts map[*Obj]string // Fiat-Shamir transcripts: everything bound so far (the challenge is a function of it)
